@@ -6,7 +6,8 @@ use crate::mon::{guard, h2, par_shards, Ctx, Local, Outcome, Report};
 use crate::refcal as rc;
 use crate::refinst::{self as ri, RDt, DAY_NS, NS};
 use crate::rng::Rng;
-use chrono::{DateTime, Days, FixedOffset, NaiveDate, NaiveDateTime, TimeZone, Utc};
+use crate::zones::{step_off, StepTz, STEP_T0, STEP_T1};
+use chrono::{DateTime, Days, FixedOffset, NaiveDate, NaiveDateTime, TimeDelta, TimeZone, Utc};
 use serde_json::json;
 
 const B: &[&str] = &[
@@ -14,7 +15,7 @@ const B: &[&str] = &[
     "dt_add_min_minus_1ns", "dt_delta_extreme", "dt_negative_fraction_delta", "dt_day_carry", "dt_distance_pairs", "dt_distance_full_range",
     "date_days_some", "date_days_none", "date_days_gt_i32", "date_days_u64_max", "date_same_year_fast_path_edge", "date_cross_400y",
     "date_signed_truncation", "date_signed_none", "iter_days_fwd", "iter_days_rev", "iter_weeks_fwd", "iter_weeks_rev", "iter_at_range_end",
-    "ops_agree", "ops_std_duration", "zoned_add", "zoned_distance", "zoned_none_at_range_end",
+    "ops_agree", "ops_std_duration", "zoned_add", "zoned_distance", "zoned_none_at_range_end", "zoned_variable_offset",
 ];
 const FLOOR: &[&str] = B;
 
@@ -221,6 +222,89 @@ fn case_zoned_add(loc: &mut Local, x: &Ix, a: RDt, off: i64, d_ns: i128, sub: bo
     if exp.is_none() || off.abs() >= 86_000 {
         loc.nontrivial(h2(3, h2(a.ns() as u64, h2(off as u64, d_ns as u64))));
     }
+}
+
+/// Elapsed-time arithmetic on a date-time in a zone whose offset varies (`zones::StepTz`): the checked
+/// form must give the instant u + δ, and every operator / assigning form must agree with the checked
+/// form in everything observable (instant, offset carried, wall clock) — with a constant offset, a form
+/// that moves the stored UTC value but keeps the old offset cannot be told apart.
+fn case_step_zone(loc: &mut Local, bk: usize, rng: &mut Rng) {
+    let t = if rng.chance(1, 2) { STEP_T0 } else { STEP_T1 };
+    let u = match rng.below(3) {
+        0 => t + rng.range(-7300, 7300),
+        1 => t + rng.range(-3 * 86_400, 3 * 86_400),
+        _ => t + rng.range(-400, 400) * 86_400 + rng.range(-4000, 4000),
+    };
+    let delta = match rng.below(3) {
+        0 => rng.range(-7300, 7300),
+        1 => rng.range(-3 * 86_400, 3 * 86_400),
+        _ => rng.range(-400, 400) * 86_400 + rng.range(-4000, 4000),
+    };
+    let Some(un) = DateTime::from_timestamp(u, 0).map(|d| d.naive_utc()) else { return };
+    let dt: DateTime<StepTz> = StepTz.from_utc_datetime(&un);
+    loc.eval();
+    loc.bucket(bk);
+    let (td, ntd) = (TimeDelta::seconds(delta), TimeDelta::seconds(-delta));
+    let sd = std::time::Duration::from_secs(delta.unsigned_abs());
+    let input = || json!({"utc": u, "delta_s": delta});
+    let checked = match guard(|| (dt.checked_add_signed(td), dt.checked_sub_signed(ntd))) {
+        Ok((Some(a), Some(b))) => {
+            for c in [a, b] {
+                if c.timestamp() != u + delta || c.offset().local_minus_utc() != step_off(u + delta) {
+                    loc.violation("C03/DateTime<variable-offset zone>::checked_add_signed/wrong-instant-or-offset", json!({"input": input(), "observed_utc": c.timestamp(), "observed_offset": c.offset().local_minus_utc()}));
+                }
+            }
+            a
+        }
+        Ok(_) => {
+            loc.violation("C03/DateTime<variable-offset zone>::checked_add_signed/refused-mid-range", input());
+            return;
+        }
+        Err(p) => {
+            loc.violation(&format!("C03/DateTime<variable-offset zone>::checked_add_signed/panic@{}", p.site()), json!({"input": input(), "panic": p.to_json()}));
+            return;
+        }
+    };
+    type Form = (&'static str, Box<dyn Fn(DateTime<StepTz>) -> DateTime<StepTz>>);
+    let mut forms: Vec<Form> = vec![
+        ("add-TimeDelta", Box::new(move |x| x + td)),
+        ("sub-TimeDelta", Box::new(move |x| x - ntd)),
+        ("add_assign-TimeDelta", Box::new(move |mut x| {
+            x += td;
+            x
+        })),
+        ("sub_assign-TimeDelta", Box::new(move |mut x| {
+            x -= ntd;
+            x
+        })),
+    ];
+    if delta >= 0 {
+        forms.push(("add-std-Duration", Box::new(move |x| x + sd)));
+        forms.push(("add_assign-std-Duration", Box::new(move |mut x| {
+            x += sd;
+            x
+        })));
+    } else {
+        forms.push(("sub-std-Duration", Box::new(move |x| x - sd)));
+        forms.push(("sub_assign-std-Duration", Box::new(move |mut x| {
+            x -= sd;
+            x
+        })));
+    }
+    for (name, f) in forms {
+        match guard(|| f(dt)) {
+            Ok(r) => {
+                if r != checked || r.naive_utc() != checked.naive_utc() || r.offset() != checked.offset() || r.naive_local() != checked.naive_local() {
+                    loc.violation(
+                        &format!("C03/DateTime<variable-offset zone>/{}/operator-form-differs-from-checked-form", name),
+                        json!({"input": input(), "checked": format!("{:?} {:?}", checked.naive_utc(), checked.offset()), "operator": format!("{:?} {:?}", r.naive_utc(), r.offset())}),
+                    );
+                }
+            }
+            Err(p) => loc.violation(&format!("C03/DateTime<variable-offset zone>/{}/operator-panics-though-checked-some@{}", name, p.site()), json!({"input": input(), "panic": p.to_json()})),
+        }
+    }
+    loc.nontrivial(h2(17, h2(u as u64, delta as u64)));
 }
 
 /// `NaiveDateTime ± FixedOffset` and `DateTime<Tz> ± FixedOffset` (shift by the offset's seconds;
@@ -761,6 +845,8 @@ pub fn run(ctx: &Ctx) -> Outcome {
                 _ => {
                     if rng.chance(1, 50) {
                         case_iter(&mut loc, &x, a.day, 50);
+                    } else if rng.chance(1, 4) {
+                        case_step_zone(&mut loc, bi("zoned_variable_offset"), &mut rng);
                     }
                 }
             }
